@@ -16,6 +16,7 @@
 -/
 import BumpProof.Coll.Split
 import BumpProof.Lemmas.CollSplit
+import BumpProof.Lemmas.CollPrim
 
 namespace C16
 open Coll
@@ -139,6 +140,66 @@ theorem split_last_partitions (lay : Lay) (p : Part) (xs : List Id) (x : Id) (h 
 
 theorem split_first_empty (lay : Lay) (p : Part) (h : p.vec.len = 0) : splitFirst lay p = none ∧ splitLast lay p = none := by
   unfold splitFirst splitLast; simp [h]
+
+/-- `FixedBumpVec::split_at_spare`: the initialised part and the spare capacity tile the buffer -/
+theorem split_at_spare_partitions (lay : Lay) (p : Part) (xs : List Id) (h : p.Holds xs) :
+    (splitAtSpare lay p).1.vec.abs = xs ∧ (splitAtSpare lay p).1.vec.cap = p.vec.len ∧
+    (splitAtSpare lay p).2.vec.len = 0 ∧ (splitAtSpare lay p).2.vec.cap = p.vec.cap - p.vec.len ∧
+    (splitAtSpare lay p).1.addr = p.addr ∧ (splitAtSpare lay p).2.addr = p.addr + p.vec.len * lay.esize := by
+  have hcap := h.len_le_cap
+  obtain ⟨hs, hl⟩ := h
+  have ⟨a1, a2, a3, a4⟩ := cut_holds lay p.addr xs (p.vec.cap - p.vec.len) p.vec.len p.vec.cap (by omega) (by omega)
+  rw [← hs] at a1 a2 a3 a4
+  have e1 : xs.take p.vec.len = xs := List.take_of_length_le (by omega)
+  rw [e1] at a1
+  refine ⟨a1.abs, a2, rfl, ?_, by simp [splitAtSpare, subPart], by simp [splitAtSpare, subPart]⟩
+  have : xs.length - p.vec.len = 0 := by omega
+  simp only [splitAtSpare]
+  rw [← a4]
+  simp [subPart, Vec.cap]
+
+/-- `partition(pred)` of a boxed slice, for EVERY predicate behaviour (oracle): either two adjacent boxes
+    come back that together hold exactly the original values (each once; the order inside the parts is
+    not preserved, as documented for `partition_in_place`) — or the predicate panicked and the box, which
+    was moved into the call, has been dropped with every value in it exactly once -/
+theorem partition_partitions (lay : Lay) (bombs : List Id) (p : Part) (xs : List Id) (h : p.Holds xs)
+    (hbox : p.vec.cap = p.vec.len) (o : List Outcome) :
+    ∃ res v' o', partition lay bombs p o = .ok (res, v', o') ∧
+      (match res with
+       | some (l, r) => (l.vec.abs ++ r.vec.abs).Perm xs ∧ l.vec.len + r.vec.len = p.vec.len ∧
+                        l.addr = p.addr ∧ r.addr = l.addr + l.vec.len * lay.esize
+       | none => v'.abs = [] ∧ ∃ ds, v'.dropLog = p.vec.dropLog ++ ds ∧ ds.Perm xs) := by
+  have hl := h.2
+  have hs : p.vec.slots = I xs := by
+    have := h.1; rw [hbox] at this; simpa using this
+  obtain ⟨v', res, o', ys', he, hs', hperm, hlen, hdl, hesc, hcnt⟩ :=
+    partitionLoop_perm p.vec.len p.vec 0 p.vec.len 0 .firstFalse o xs hs (by omega) (by omega) (by omega)
+      (by intro h hh; cases hh) (by omega)
+  unfold partition
+  rw [he]
+  have hyl : ys'.length = p.vec.len := by rw [hperm.length_eq]; exact hl
+  cases res with
+  | some tc =>
+    have htc := hcnt tc rfl
+    have hholds : ({ p with vec := v' } : Part).Holds ys' := by
+      refine ⟨?_, by simp [hlen, hyl]⟩
+      have : v'.cap = v'.len := by simp [Vec.cap, hs', hlen, hyl]
+      simp [hs', this]
+    obtain ⟨l, r, hsp, hl1, hr1, c1, c2, a1, a2⟩ := splitAt_holds lay { p with vec := v' } ys' hholds
+      (by simp [Vec.cap, hs', hlen, hyl]) tc (by omega)
+    refine ⟨_, _, _, rfl, ?_⟩
+    simp only [hsp]
+    have l1 := hl1.2; have l2 := hr1.2
+    simp at l1 l2
+    refine ⟨by rw [hl1.abs, hr1.abs, List.take_append_drop]; exact hperm, by omega, a1, ?_⟩
+    rw [a1, a2]; simp; congr 2; omega
+  | none =>
+    simp only
+    have hd := dropRange_seg bombs ys' true (setLen v' 0) [] [] 0 (by simp [setLen, hs']) rfl
+    rw [hlen, ← hyl, hd]
+    refine ⟨_, _, _, rfl, ?_⟩
+    simp only
+    refine ⟨by simp [Vec.abs, setLen, idsOf], ys', by simp [setLen, hdl], hperm⟩
 
 /-- non-vacuity: a `FixedBumpVec` holding 1..6 with capacity 8 at address 4096, 16-byte elements:
     `split_off(1..3)` rotates the range to the front; capacities 2 + 6 -/
